@@ -97,19 +97,21 @@ def plan(seed, subbatch):
             op_["candles"][j] = [r[0], r[1], r[2], 0.0, 0.0, r[5]]
             fired["candle_closing_at_zero"] += 1
     return {"format": 1, "property": ID, "seed": seed, "subbatch": subbatch,
-            "config": {"sim_now": planlib.pick_sim_now(sub_rng(seed, "sim-now"), rows), "process_tz": env[0] if env else None, "route": route, "tf": tf, "base_s": base_s, "lifespan_s": lifespan, "ctype": ctype,
+            "config": {"tf_as_enum": sub_rng(seed, "tf-enum").random() < 0.25, "sim_now": planlib.pick_sim_now(sub_rng(seed, "sim-now"), rows), "process_tz": env[0] if env else None, "route": route, "tf": tf, "base_s": base_s, "lifespan_s": lifespan, "ctype": ctype,
                        "utc_offset_min": cfg.choice((None, None, None, None, 0, 60, 345))},
             "ops": [{"op": "new", "preload": pre}] + ops, "fired": dict(fired)}
 
 
 def execute(trace, ctx=None):
-    from .. import catalogue
+    from .. import catalogue, subjects
 
     catalogue.TZ_OFFSET_MIN = trace["config"].get("utc_offset_min")
+    subjects.TF_AS_ENUM = bool(trace["config"].get("tf_as_enum"))
     try:
         return _execute(trace)
     finally:
         catalogue.TZ_OFFSET_MIN = None
+        subjects.TF_AS_ENUM = False
 
 
 def _execute(trace):
